@@ -22,3 +22,8 @@ for p in ALL:
     out["instances"][p] = {r: sorted(keys) for r, keys in res.decided.items() if 0 < len(keys) <= 40 and (p, r) not in TEXT_KEYED}
 json.dump(out, open(os.path.join(HERE, "cxa", "confirmed_rules.json"), "w"), indent=1, sort_keys=True)
 print({p: (len(out[p]), sum(len(v) for v in out["instances"][p].values())) for p in ALL})
+# reference of the private helpers (rename detection, cxa/canon.py)
+from cxa import canon  # noqa: E402
+os.environ["CXA_NO_CANON"] = "1"
+_idx = Index(os.environ.get("CXA_REPO", "/repo"))
+json.dump(canon.reference_of({k: m.tree for k, m in _idx.modules.items()}), open(canon.REF_FILE, "w"), indent=1, sort_keys=True)
